@@ -13,6 +13,7 @@ var vC12Prefixes = []string{
 	"Description\n a", "Description\n a\n", "Description\n(", "Description\n(\n", "URL /a\n(", "URL /a\n(\n)", "INCLUDE ",
 	"INCLUDE a", "GET /a /* x *", "OperationId", "Tags @a", "Protocol json-rpc-2.0\n", "Method m\n", "Params\n", "Result\n",
 	"SERVER @s\n", "BaseUrl \"h\"\n", "TAG @t\n", "MACRO @m\n", "PASTE @m\n", "JSIGHT 0.3\n", "INFO\n", "Title \"t\"\n", "Version 1\n",
+	"200\n(", "TYPE @a\n(", "ENUM @e\n(\n", "GET /a\n(\n", "Params\n(", "GET /a # c #", "GET /a\n# c ", "### a\nb ##",
 }
 
 // lexeme grammar automaton (DESIGN.md B3)
